@@ -12,7 +12,7 @@ PROP = dict(
           "after every step the new document-level and collection-level commits in the block store are compared with what each subscriber received (as a multiset against the model, in order across subscribers, "
           "block bytes against the store); a case is a (history, step); all steps are distinct"),
     assumptions=[
-        "the bus model delivers to buffers of unbounded size (a full subscriber buffer blocks the real bus; liveness under slow subscribers is not modelled)",
+        "the bus model delivers to buffers of unbounded size (a full subscriber buffer blocks the real bus; liveness under slow subscribers is not modelled; the burst cases compare the real bus, read only after more than a buffer's worth of events was published, with this model: blocking and then delivering everything is what agrees, dropping is not)",
         "publication sites are commit-success callbacks: generated obligation update_events_only_from_commit_callbacks (syntactic extractor, trusted)",
         "fault-injected histories are covered by the C05 engine, which counts update events for every fault position",
     ],
